@@ -99,7 +99,9 @@ impl BlockAllocator {
     /// by one writer and not read concurrently while being written. The
     /// internal spin lock provides exclusive access to mutate allocator state.
     pub(super) unsafe fn alloc_block(&self, want_bytes: u64) -> std::io::Result<Block> {
-        if want_bytes == 0 || want_bytes > MAX_ALLOC {
+        // A block never spans files: a request that does not fit into one preallocated file would reach
+        // past the end of that file (and, with the mmap backend, past the end of the mapping).
+        if want_bytes == 0 || want_bytes > MAX_ALLOC || want_bytes > MAX_FILE_SIZE {
             return Err(std::io::Error::new(
                 std::io::ErrorKind::InvalidInput,
                 "invalid allocation size, a single entry can't be more than 1gb",
